@@ -24,6 +24,8 @@ type Obligation struct {
 	W      *World `json:"-"`
 	// expected: "unsat" (valid) normally; cover obligations expect "sat"
 	Cover bool `json:"cover,omitempty"`
+	// Anc: blocks whose facts are relevant (ancestors of the obligation's block, itself included); nil = all
+	Anc map[int]bool `json:"-"`
 	// model values of interest: symbol -> description
 	Watch map[string]string `json:"-"`
 }
@@ -112,6 +114,8 @@ type funcTrans struct {
 	notes    []string
 	isLemma  bool
 	localSorts map[string]*Sort
+	fspec *frameSpec
+	ancMemo map[*ssa.BasicBlock]map[int]bool
 	hdrAssumed map[*ssa.BasicBlock]bool
 }
 
@@ -142,6 +146,15 @@ func (w *World) iadd(a, b string) string {
 		return "(bvadd " + a + " " + b + ")"
 	}
 	return "(+ " + a + " " + b + ")"
+}
+// sidx: element address off+i. In int mode it is wrapped in a function symbol
+// (defined by an axiom in the prelude) so that quantifier patterns over slice
+// elements survive the solver's arithmetic normalisation.
+func (w *World) sidx(off, i string) string {
+	if w.BV {
+		return "(bvadd " + off + " " + i + ")"
+	}
+	return "(sidx " + off + " " + i + ")"
 }
 func (w *World) isub(a, b string) string {
 	if w.BV {
@@ -193,6 +206,7 @@ func verifyFunction(p *Program, fn *ssa.Function, c *Contract) *FuncResult {
 	var universe map[string]bool
 	for pass := 1; pass <= 2; pass++ {
 		w := newWorld(p, c != nil && c.Mode == "bv")
+		w.predeclareSpecTypes()
 		ft := &funcTrans{w: w, p: p, fn: fn, c: c, pass: pass, universe: universe}
 		err := ft.run()
 		if err != nil {
@@ -270,7 +284,7 @@ func (ft *funcTrans) run() (err error) {
 	if ft.c != nil {
 		o := ft.obligation("cover", "requires-sat", "preconditions and type invariants are satisfiable", "true")
 		o.Cover = true
-		w.facts = w.facts[:len(w.facts)-1]
+		w.popFact()
 	}
 	ft.findLoops()
 	order := ft.rpo()
@@ -281,7 +295,7 @@ func (ft *funcTrans) run() (err error) {
 }
 
 func (ft *funcTrans) ctx(st, old *State) *evalCtx {
-	return &evalCtx{w: ft.w, pkg: ft.pkgTypes(), env: ft.env, st: st, old: old}
+	return &evalCtx{w: ft.w, pkg: ft.pkgTypes(), env: ft.env, st: st, old: old, lets: ft.lets()}
 }
 
 // assumeWellTyped adds the type invariants of a value: unsigned ranges,
@@ -421,6 +435,9 @@ func (ft *funcTrans) obligation(kind, name, clause, goal string) *Obligation {
 		r = ft.reach[ft.cur]
 	}
 	o := &Obligation{Name: ft.fn.String() + "#" + name, Func: ft.fn.String(), Kind: kind, Clause: clause, NFacts: len(w.facts), Goal: goal, Reach: r, W: w}
+	if ft.cur != nil {
+		o.Anc = ft.ancestors(ft.cur)
+	}
 	ft.obls = append(ft.obls, o)
 	// later obligations may assume earlier ones
 	w.addFact(fmt.Sprintf("(=> %s %s)", r, goal))
@@ -581,4 +598,32 @@ func (ft *funcTrans) mergeStates(preds []*ssa.BasicBlock, b *ssa.BasicBlock) *St
 		res.alloc = sym
 	}
 	return res
+}
+
+func (ft *funcTrans) lets() map[string]Expr {
+	if ft.c == nil {
+		return nil
+	}
+	return ft.c.Lets
+}
+
+// ancestors: blocks from which b is reachable along forward (non-back) edges, plus b.
+func (ft *funcTrans) ancestors(b *ssa.BasicBlock) map[int]bool {
+	if ft.ancMemo == nil {
+		ft.ancMemo = map[*ssa.BasicBlock]map[int]bool{}
+	}
+	if m, ok := ft.ancMemo[b]; ok {
+		return m
+	}
+	m := map[int]bool{b.Index: true}
+	ft.ancMemo[b] = m
+	for _, p := range b.Preds {
+		if ft.isBackEdge(p, b) {
+			continue
+		}
+		for k := range ft.ancestors(p) {
+			m[k] = true
+		}
+	}
+	return m
 }
